@@ -3,6 +3,9 @@ package c06
 import (
 	"fmt"
 	"math"
+	"runtime"
+	"sync"
+	"sync/atomic"
 	"testing"
 
 	"github.com/deadsy/sdfx/render"
@@ -55,9 +58,39 @@ type sampled struct {
 
 type sv struct{ c, v float64 }
 
+// busy: other renders (both renderer kinds, another shape far away) run in the same process while
+// the judged render runs - a program that writes several parts in parallel. Drawn per case.
+var busy atomic.Bool
+
 func renderRecorded(s sdf.SDF3, r renderer, cells int) *sampled {
 	rb := &lat.Recorder3{S: s}
+	var stop chan struct{}
+	var wg sync.WaitGroup
+	if busy.Load() {
+		stop = make(chan struct{})
+		for i := 0; i < 2; i++ {
+			wg.Add(1)
+			go func(i int) {
+				defer wg.Done()
+				decoy, _ := sdf.Sphere3D(3)
+				d := sdf.Transform3D(decoy, sdf.Translate3d(v3.Vec{X: 1e3, Y: -1e3, Z: 5e2}))
+				for {
+					select {
+					case <-stop:
+						return
+					default:
+						render.ToTriangles(d, renderers[i%len(renderers)].mk(14+i))
+						runtime.Gosched()
+					}
+				}
+			}(i)
+		}
+	}
 	ts := render.ToTriangles(rb, r.mk(cells))
+	if stop != nil {
+		close(stop)
+		wg.Wait()
+	}
 	sz := s.BoundingBox().Size()
 	out := &sampled{val: map[v3.Vec]float64{}, tris: ts, h: sz.MaxComponent() / float64(cells)}
 	out.ax = lat.AxesOf3(rb.Pts, 1e-9*out.h)
@@ -162,6 +195,8 @@ func TestVertexRule(t *testing.T) {
 		r := rapid.SampledFrom(renderers).Draw(t, "renderer")
 		cells := rapid.IntRange(4, ev.Pick(28, 64)).Draw(t, "cells")
 		kind := rapid.SampledFrom([]string{"plane", "sphere", "exact", "lipschitz"}).Draw(t, "kind")
+		busy.Store(rapid.IntRange(0, 3).Draw(t, "other-renders-running") == 0)
+		defer busy.Store(false)
 		var s sdf.SDF3
 		desc := ""
 		var sphereR float64
@@ -249,7 +284,7 @@ func TestVertexRule(t *testing.T) {
 			}
 		}
 		rec.Add("vertices-checked", int64(len(seen)))
-		rec.Case(len(sm.tris) >= 20, ev.Key(r.name, kind, desc, cells), "vertex:"+kind, "vertex:"+r.name, fmt.Sprintf("vertex:unit=%g", S))
+		rec.Case(len(sm.tris) >= 20, ev.Key(r.name, kind, desc, cells), "vertex:"+kind, "vertex:"+r.name, fmt.Sprintf("vertex:unit=%g", S), fmt.Sprintf("vertex:other-renders-running=%v", busy.Load()))
 		rec.Sample("vertex:"+kind, map[string]any{"renderer": r.name, "kind": kind, "scene": desc, "cells": cells, "h": sm.h, "triangles": len(sm.tris), "vertices": len(seen), "worst_abs_f": worst})
 	})
 }
